@@ -436,6 +436,53 @@ func (g *c01Gen) block(d, n int) []*ts {
 	return out
 }
 
+// stmtS: only the statement kinds of the block-machine model (assignment to a variable, call,
+// if / else, for, block, return)
+func (g *c01Gen) stmtS(d int) *ts {
+	r := g.r
+	g.budget = 5
+	x := r.Intn(9)
+	if d <= 0 && x >= 4 {
+		x = r.Intn(4)
+	}
+	switch x {
+	case 0, 1:
+		t := []string{"int", "string", "float64", "bool", "MyInt"}[r.Intn(5)]
+		vs := g.vars(t)
+		return &ts{K: "assign", L: &tx{K: "var", Name: vs[r.Intn(len(vs))]}, E: g.expr(t, 2)}
+	case 2:
+		return &ts{K: "expr", E: &tx{K: "call", Name: "fi", Kids: []*tx{g.expr("int", 2)}}}
+	case 3:
+		return &ts{K: "ret", Es: []*tx{g.expr("int", 1), {K: "lit", Lit: "nil", Val: nil}}}
+	case 4, 5:
+		s := &ts{K: "if", E: &tx{K: "bin", Op: token.LSS, Kids: []*tx{g.expr("int", 1), {K: "var", Name: "pi"}}}}
+		for i, n := 0, 1+r.Intn(2); i < n; i++ {
+			s.Body = append(s.Body, g.stmtS(d-1))
+		}
+		if r.Intn(2) == 0 {
+			s.HasElse = true
+			for i, n := 0, 1+r.Intn(2); i < n; i++ {
+				s.Else = append(s.Else, g.stmtS(d-1))
+			}
+			if len(s.Else) == 1 && s.Else[0].K == "if" { // keep else { if } distinct from else-if: add a statement
+				s.Else = append(s.Else, &ts{K: "expr", E: &tx{K: "call", Name: "fn0"}})
+			}
+		}
+		return s
+	case 6, 7:
+		s := &ts{K: "for", E: &tx{K: "bin", Op: token.NEQ, Kids: []*tx{{K: "var", Name: "pi"}, g.expr("int", 1)}}}
+		for i, n := 0, 1+r.Intn(2); i < n; i++ {
+			s.Body = append(s.Body, g.stmtS(d-1))
+		}
+		return s
+	}
+	s := &ts{K: "block"}
+	for i, n := 0, 1+r.Intn(2); i < n; i++ {
+		s.Body = append(s.Body, g.stmtS(d-1))
+	}
+	return s
+}
+
 func (g *c01Gen) stmt(d int) *ts {
 	r := g.r
 	t := c01ValTypes[r.Intn(len(c01ValTypes))]
@@ -683,7 +730,14 @@ type c01B struct {
 	tyc   map[string]types.Type
 	param map[string]*types.Var
 	rec   *[]string // recorded generic operations (Coq terms), when non-nil
+	srec  *[]string // recorded statement-level operations (expression operations wrapped in OE)
 	ids   map[string]int
+}
+
+func (b *c01B) sop(op string) {
+	if b.srec != nil {
+		*b.srec = append(*b.srec, op)
+	}
 }
 
 func (b *c01B) id(s string) int {
@@ -698,11 +752,17 @@ func (b *c01B) leaf(text string) {
 	if b.rec != nil {
 		*b.rec = append(*b.rec, fmt.Sprintf("OLeaf %d%%N", b.id("L:"+text)))
 	}
+	if b.srec != nil {
+		*b.srec = append(*b.srec, fmt.Sprintf("OE (OLeaf %d%%N)", b.id("L:"+text)))
+	}
 }
 
 func (b *c01B) node(tag string, n int) {
 	if b.rec != nil {
 		*b.rec = append(*b.rec, fmt.Sprintf("ONode %d%%N %d", b.id("N:"+tag), n))
+	}
+	if b.srec != nil {
+		*b.srec = append(*b.srec, fmt.Sprintf("OE (ONode %d%%N %d)", b.id("N:"+tag), n))
 	}
 }
 
@@ -901,6 +961,7 @@ func (b *c01B) stmt(s *ts) {
 		b.ref(s.L)
 		b.expr(s.E)
 		cb.Assign(1)
+		b.sop("OAssign")
 	case "opassign":
 		b.ref(s.L)
 		b.expr(s.E)
@@ -911,6 +972,7 @@ func (b *c01B) stmt(s *ts) {
 	case "expr":
 		b.expr(s.E)
 		cb.EndStmt()
+		b.sop("OEndStmt")
 	case "go":
 		b.expr(s.E)
 		cb.Go()
@@ -933,20 +995,27 @@ func (b *c01B) stmt(s *ts) {
 		cb.EndInit(1)
 	case "if":
 		cb.If()
+		b.sop("OIf")
 		b.expr(s.E)
 		cb.Then()
+		b.sop("OThen")
 		b.list(s.Body)
 		if s.HasElse {
 			cb.Else()
+			b.sop("OElse")
 			b.list(s.Else)
 		}
 		cb.End()
+		b.sop("OEnd")
 	case "for":
 		cb.For()
+		b.sop("OFor")
 		b.expr(s.E)
 		cb.Then()
+		b.sop("OThen")
 		b.list(s.Body)
 		cb.End()
+		b.sop("OEnd")
 	case "for3":
 		cb.For()
 		cb.DefineVarStart(token.NoPos, s.Name).Val(0).EndInit(1)
@@ -988,13 +1057,16 @@ func (b *c01B) stmt(s *ts) {
 		cb.End()
 	case "block":
 		cb.Block()
+		b.sop("OBlock")
 		b.list(s.Body)
 		cb.End()
+		b.sop("OEnd")
 	case "ret":
 		for _, e := range s.Es {
 			b.expr(e)
 		}
 		cb.Return(len(s.Es))
+		b.sop(fmt.Sprintf("OReturn %d", len(s.Es)))
 	}
 }
 
@@ -1219,9 +1291,107 @@ func runC0102(a *runArgs, prop string) error {
 		}
 	}
 	if prop == "C02" {
+		// stream S: whole function bodies over the statement kinds of the block-machine model
+		nS := 150
+		if a.Tier == "thorough" {
+			nS = 1500
+		}
+		var scases []string
+		for i := 0; i < nS; i++ {
+			g := &c01Gen{r: r}
+			for _, p := range c01ParamList {
+				g.env = append(g.env, p)
+			}
+			var body []*ts
+			for j, nb := 0, 2+r.Intn(3); j < nb; j++ {
+				body = append(body, g.stmtS(2))
+			}
+			body = append(body, &ts{K: "ret", Es: []*tx{intLit(r), {K: "lit", Lit: "nil", Val: nil}}})
+			srcText := ""
+			{ // go/types decides whether the program is valid Go
+				var sb strings.Builder
+				sb.WriteString("package main\n\nfunc Sbody(" + c01Params + ") (int, error) {\n")
+				for _, st := range body {
+					st.src(&sb, "\t")
+				}
+				sb.WriteString("}\n")
+				if _, e := c01Check(fset, imp, pf, sb.String()); e != "" {
+					continue
+				}
+				srcText = sb.String()
+			}
+			var sops []string
+			var out bytes.Buffer
+			var bld *c01B
+			fname := fmt.Sprintf("Sb%d", i)
+			msg := ""
+			func() {
+				defer func() {
+					if e := recover(); e != nil {
+						msg = fmt.Sprint(e)
+					}
+				}()
+				pkg := gogen.NewPackage("main", "main", &gogen.Config{Fset: token.NewFileSet(), Importer: imp, Types: tpkg})
+				b := &c01B{pkg: pkg, tpkg: tpkg, fset: fset, tyc: map[string]types.Type{}, param: map[string]*types.Var{}, ids: ids, srec: &sops}
+				bld = b
+				var ps []*types.Var
+				for _, p := range c01ParamList {
+					v := types.NewParam(token.NoPos, pkg.Types, p[0], b.typ(p[1]))
+					ps = append(ps, v)
+					b.param[p[0]] = v
+				}
+				rs := types.NewTuple(types.NewParam(token.NoPos, pkg.Types, "", types.Typ[types.Int]), types.NewParam(token.NoPos, pkg.Types, "", types.Universe.Lookup("error").Type()))
+				b.cb = pkg.NewFunc(nil, fname, types.NewTuple(ps...), rs, false).BodyStart(pkg)
+				b.list(body)
+				b.cb.End()
+				if err := pkg.WriteTo(&out); err != nil {
+					panic(err)
+				}
+			}()
+			m.DirectRuns++
+			if msg != "" {
+				var sb strings.Builder
+				for _, st := range body {
+					st.src(&sb, "\t")
+				}
+				m.Direct = append(m.Direct, directViolation{Case: i, What: "valid Go is rejected by the builder: " + c01Trim(msg), Replay: c01Case{Source: sb.String(), Builder: msg}})
+				continue
+			}
+			f, err := parser.ParseFile(fset, "prog.go", out.String(), parser.SkipObjectResolution)
+			if err != nil {
+				continue
+			}
+			// programs whose emitted tree is not the source tree (constant boolean folding, a listed finding) are not replayed
+			if sf, err := parser.ParseFile(fset, "src.go", srcText, parser.SkipObjectResolution); err != nil || c01FuncCanonOf(sf, "Sbody") != c01FuncCanonOf(f, fname) {
+				continue
+			}
+			for _, d := range f.Decls {
+				if fd, ok := d.(*ast.FuncDecl); ok && fd.Name.Name == fname {
+					if tree, ok := bld.genericStmts(fd.Body.List); ok && !strings.Contains(out.String(), "if true") && !strings.Contains(out.String(), "if false") {
+						scases = append(scases, fmt.Sprintf("(%s, %s)", coqList(sops), tree))
+						m.Dist["function bodies replayed in the block-machine model"]++
+					}
+				}
+			}
+		}
+		{
+			var sbv strings.Builder
+			sbv.WriteString("From Coq Require Import List NArith Bool.\nFrom GV Require Import C02.Model C02.Check.\nImport ListNotations.\n")
+			var parts []string
+			for i := 0; i < len(scases); i += 50 {
+				j := min(i+50, len(scases))
+				fmt.Fprintf(&sbv, "Definition sc%d : list (list sop * stmts) := %s.\n", i/50, coqList(scases[i:j]))
+				parts = append(parts, fmt.Sprintf("sc%d", i/50))
+			}
+			if len(parts) == 0 {
+				parts = []string{"[]"}
+			}
+			fmt.Fprintf(&sbv, "Definition r0 := Eval vm_compute in (k1s_bad (%s)).\nPrint r0.\n", strings.Join(parts, " ++ "))
+			os.WriteFile(filepath.Join(a.Out, "cases_C02_900.v"), []byte(sbv.String()), 0o666)
+		}
 		os.WriteFile(filepath.Join(a.Out, "k1_expressions.txt"), []byte(strings.Join(k1src, "\n")), 0o666)
 		cw.flush()
-		m.Files = cw.files
+		m.Files = append(cw.files, "cases_C02_900.v")
 		m.PerShard = 400
 	}
 	m.Cases = len(distinct)
@@ -1395,4 +1565,65 @@ func c01FirstFunc(f *ast.File) *ast.FuncDecl {
 		}
 	}
 	return nil
+}
+
+
+func (b *c01B) genericStmts(l []ast.Stmt) (string, bool) {
+	out, ok := "TNil", true
+	for i := len(l) - 1; i >= 0; i-- {
+		s, ok1 := b.genericStmt(l[i])
+		ok = ok && ok1
+		out = "(TCons " + s + " " + out + ")"
+	}
+	return out, ok
+}
+
+func (b *c01B) genericStmt(st ast.Stmt) (string, bool) {
+	switch st := st.(type) {
+	case *ast.AssignStmt:
+		if st.Tok == token.ASSIGN && len(st.Lhs) == 1 && len(st.Rhs) == 1 {
+			return "(SAssign " + b.generic(st.Lhs[0]) + " " + b.generic(st.Rhs[0]) + ")", true
+		}
+	case *ast.ExprStmt:
+		return "(SExpr " + b.generic(st.X) + ")", true
+	case *ast.ReturnStmt:
+		es := "XNil"
+		for i := len(st.Results) - 1; i >= 0; i-- {
+			es = "(XCons " + b.generic(st.Results[i]) + " " + es + ")"
+		}
+		return "(SReturn " + es + ")", true
+	case *ast.IfStmt:
+		if st.Init == nil {
+			t, ok1 := b.genericStmts(st.Body.List)
+			switch e := st.Else.(type) {
+			case nil:
+				return "(SIf " + b.generic(st.Cond) + " " + t + " false TNil)", ok1
+			case *ast.BlockStmt:
+				es, ok2 := b.genericStmts(e.List)
+				return "(SIf " + b.generic(st.Cond) + " " + t + " true " + es + ")", ok1 && ok2
+			case *ast.IfStmt: // else-if: the else block holds that if alone
+				es, ok2 := b.genericStmt(e)
+				return "(SIf " + b.generic(st.Cond) + " " + t + " true (TCons " + es + " TNil))", ok1 && ok2
+			}
+		}
+	case *ast.ForStmt:
+		if st.Init == nil && st.Post == nil && st.Cond != nil {
+			body, ok := b.genericStmts(st.Body.List)
+			return "(SFor " + b.generic(st.Cond) + " " + body + ")", ok
+		}
+	case *ast.BlockStmt:
+		body, ok := b.genericStmts(st.List)
+		return "(SBlock " + body + ")", ok
+	}
+	return "(SBlock TNil)", false
+}
+
+func c01FuncCanonOf(f *ast.File, name string) string {
+	c01Normalize(f)
+	for _, d := range f.Decls {
+		if fd, ok := d.(*ast.FuncDecl); ok && fd.Name.Name == name {
+			return strings.ReplaceAll(c12CanonOf(fd.Body), `InterfaceType{Methods:nil }`, `Ident{Name:"any" }`)
+		}
+	}
+	return ""
 }
